@@ -952,6 +952,58 @@ func arithFree(e *Expr) bool {
 	return true
 }
 
+// apply at <anchor>: lemma(args) -- the lemma (proved once, for all values) instantiated at these terms
+func (g *Gen) applyLemma(a *AtClause, env *TEnv) {
+	if g.fr.inl {
+		return
+	}
+	if a.E.Op != "call" || a.E.Args[0].Op != "id" {
+		g.fail("apply: expected lemma(args), got %s", a.E)
+	}
+	lm := g.w.DB.Lemmas[a.E.Args[0].Val]
+	if lm == nil {
+		g.fail("apply: unknown lemma %s", a.E.Args[0].Val)
+	}
+	if g.bv != (lm.Mode == "bv") {
+		g.fail("apply: lemma %s is in %s mode", lm.Name, lm.Mode)
+	}
+	args := a.E.Args[1:]
+	if len(args) != len(lm.Vars) {
+		g.fail("apply: lemma %s takes %d arguments", lm.Name, len(lm.Vars))
+	}
+	e2 := g.curEnv()
+	for k, v := range env.vars {
+		if _, exists := e2.vars[k]; !exists {
+			e2.vars[k] = v
+		}
+		e2.vars["callee_"+k] = v
+	}
+	e2.oldEntry = true
+	lenv := &TEnv{g: g, vars: map[string]tvT{}, pkg: lm.Pkg}
+	guard := "true"
+	for i, v := range lm.Vars {
+		t := g.trans(args[i], e2)
+		gt, so := g.resolveType(v.Type, lm.Pkg)
+		t.lit = nil
+		if gt == nil || gt == mathInt {
+			t = tvT{t: t.t, gt: gt, sort: so}
+		}
+		lenv.vars[v.Name] = t
+		if v.Name == lm.Induct {
+			guard = fmt.Sprintf("(<= 0 %s)", t.t)
+		}
+	}
+	if g.firedAnchors == nil {
+		g.firedAnchors = map[string]bool{}
+	}
+	g.firedAnchors[a.Anchor] = true
+	g.usedLemmas[lm.Name] = true
+	if lm.Axiom {
+		g.assumptions["axiom "+lm.Name+" (assumed, not proved): "+lm.Body.String()] = true
+	}
+	g.assume(g.curR, fmt.Sprintf("(=> %s %s)", guard, g.transBool(lm.Body, lenv)))
+}
+
 func lastName(key string) string {
 	if i := strings.LastIndex(key, "."); i >= 0 {
 		return key[i+1:]
@@ -964,9 +1016,14 @@ func (g *Gen) atAnchor(anchor string, env *TEnv) {
 	if c == nil {
 		return
 	}
+	for _, a := range c.Asserts {
+		if a.Anchor == anchor && a.Apply {
+			g.applyLemma(a, env)
+		}
+	}
 	g.ghostAtAnchor(anchor, env)
 	for i, a := range c.Asserts {
-		if a.Anchor == anchor {
+		if a.Anchor == anchor && !a.Apply {
 			if g.firedAnchors == nil {
 				g.firedAnchors = map[string]bool{}
 			}
@@ -999,7 +1056,29 @@ func (g *Gen) atAnchor(anchor string, env *TEnv) {
 				g.assumptions["unchecked assumption at `"+a.Anchor+"` in "+g.fnName+": "+a.E.String()] = true
 				continue
 			}
+			saveHide := g.curHide
+			if a.Local {
+				var hide []int
+				for _, ix := range g.invIdx {
+					if ix < len(g.defs) && strings.Contains(g.defs[ix], "(forall ") {
+						hide = append(hide, ix)
+					}
+				}
+				g.curHide = hide
+			}
 			o := g.ob("assert", invLabel(&Clause{Label: a.Label}, i), p, a.Anchor+": "+a.E.String())
+			g.curHide = saveHide
+			if a.Cut {
+				// everything quantified that was established before this point is summarised by the clause
+				var hide []int
+				for _, ix := range g.invIdx {
+					if ix < len(g.defs) && strings.Contains(g.defs[ix], "(forall ") {
+						hide = append(hide, ix)
+					}
+				}
+				g.baseHide = hide
+				g.curHide = append(append([]int{}, g.baseHide...), g.curHide...)
+			}
 			if !a.GoalOnly && !isKnownFindingName(o.Name) {
 				g.assumeProved(g.curR, p)
 			}
